@@ -11,8 +11,8 @@
        `closed` RQ, which is all a back end needs for its lookups.  Visibility (clause 2 in its narrow form) depends on
        the resolver's scoping and is not a consequence of the machine; it is the per-program part.
    Full statement "forall programs p, resolver p = Ok q -> rq_wf q = true" is FALSE of the current tree (/repo HEAD):
-     open   C16-F1  the carried sort of Take / Window names an id of its own relation that a Select (or the Aggregate of
-                    a group body) has dropped -- rq_wf_lax is what holds modulo F1;
+     open   C16-F1  the carried sort of Take / Window names an id of its own relation that a Select has dropped --
+                    rq_wf_lax is what holds modulo F1;
             C16-F6  a function that mentions its relation parameter twice makes the Lowerer lower one PL node twice;
             C16-F7  a column excluded by `select !{..}` in a joined sub-pipeline is still bound from outside;
             C16-F8  a top-level scalar `let` mentioned twice is inlined with one PL node id (same root cause as F6);
@@ -21,7 +21,7 @@
             C16-F4 (3b8ac37: create_a_table_instance keeps duplicate columns -- Model/Lowerer.v follows, and
             inline_redirects_every_select_id below is the statement that was false of the old model),
             C16-F5 (592b6f8: partition / window frame saved around relational arguments), and the plain-aggregate half
-            of F1 (8d54bf7).  Their RQs are kept below as c16_regression_*: none of them is tolerated any more. *)
+            of F1 (8d54bf7) and the group-aggregate half (f809321).  Their RQs are kept below as c16_regression_*: none of them is tolerated any more. *)
 From Coq Require Import List NArith Bool.
 From PV Require Import Lib.ListX Model.Rq Model.RqWf Model.Lowerer Model.RqEq Model.LowererTrace Model.LowererVis Model.LowererSelect
                        Proofs.RqWfProofs Proofs.LowererProofs Proofs.LowererTraceProofs Proofs.LowererVisProofs Proofs.LowererSelectProofs.
@@ -276,13 +276,14 @@ Example c16_finding_f1_sort_carried_past_select :
   rq_diags finding_f1 = [DNotVisible 1 STakeSort 0] /\ rq_wf finding_f1 = false /\ rq_wf_lax finding_f1 = true.
 Proof. vm_compute. auto. Qed.
 
-(* C16-F1, the other dropper still present at HEAD: `from t | group {g} (sort a | aggregate {n = count this} | take 1)` -- the
-   Aggregate of a group body drops column 1 and the Take behind it is still sorted by it *)
-Definition finding_f1_group : rq :=
+(* the other half of C16-F1 that was repaired (f809321 "an aggregate inside a group ends the sort in effect too"): what the
+   implementation used to emit for `from t | group {g} (sort a | aggregate {n = count this} | take 1)` -- the Aggregate of a group
+   body drops column 1 and the Take behind it is still sorted by it.  Regression shape: the check's classifier reports it. *)
+Definition regression_f1_group : rq :=
   (mkRq [(mkTable 0 None (mkRel (KExternRef [[116]]) [(RSingle (Some [103])); (RSingle (Some [97])); RWildcard]))] (mkRel (KPipeline [(TFrom (mkTRef 0 [((RSingle (Some [103])), 0); ((RSingle (Some [97])), 1); (RWildcard, 2)] (Some [116]))); (TCompute 3 (ENode (KOp [115;116;100;46;99;111;117;110;116]) [ELit]) None true); (TAggregate [0] [3]); (TTake (None, (Some ELit)) [0] [(Asc, 1)]); (TSelect [0; 3])]) [(RSingle (Some [103])); (RSingle (Some [110]))])).
 
-Example c16_finding_f1_sort_carried_past_group_aggregate :
-  rq_diags finding_f1_group = [DNotVisible 1 STakeSort 1] /\ rq_wf_lax finding_f1_group = true.
+Example c16_regression_f1_sort_past_group_aggregate :
+  rq_diags regression_f1_group = [DNotVisible 1 STakeSort 1] /\ rq_wf regression_f1_group = false.
 Proof. vm_compute. auto. Qed.
 
 (* C16-F6  `let dup = rel -> (rel | append rel)` / `from t | derive {x = a + 1} | dup` : the argument pipeline is lowered twice;
